@@ -556,3 +556,29 @@ mut("C19", "r4-keep-floor-one", "updater/resource.go",
     "\tif keepExtra < 2 {\n\t\tkeepExtra = 2\n\t}", "\tif keepExtra < 1 {\n\t\tkeepExtra = 1\n\t}", "C19-R4|keepExtra floor")
 mut("C19", "r5-nil-map", "updater/registry.go",
     "\tversions = make(map[string]string, len(reg.resources))\n", "", "C19-R5|write to map", comment="reverts fix 1e76966")
+
+# ---- C20 -------------------------------------------------------------------
+mut("C20", "r1-leq-drops-equal-level", "log/input.go",
+    "\t\t\tif level < severity {\n\t\t\t\treturn\n\t\t\t}", "\t\t\tif level <= severity {\n\t\t\t\treturn\n\t\t\t}", "C20-R1|level filter table", canary=True)
+mut("C20", "r1-pkglevel-ignored", "log/input.go",
+    "\t\tif ok {\n\t\t\tif level < severity {\n\t\t\t\treturn\n\t\t\t}\n\t\t} else {", "\t\tif ok && severity > InfoLevel {\n\t\t\tif level < severity {\n\t\t\t\treturn\n\t\t\t}\n\t\t} else {", "C20-R1|level filter table")
+mut("C20", "r1-fastcheck-strict", "log/input.go",
+    "\tif uint32(level) >= atomic.LoadUint32(logLevel) {\n\t\treturn true\n\t}\n\treturn false", "\tif uint32(level) > atomic.LoadUint32(logLevel) {\n\t\treturn true\n\t}\n\treturn false", "C20-R1|fastcheck")
+mut("C20", "r2-double-send", "log/input.go",
+    "\t// wake up writer if necessary\n\tif logsWaitingFlag.SetToIf(false, true) {\n\t\tselect {\n\t\tcase logsWaiting <- struct{}{}:\n\t\tdefault:\n\t\t}\n\t}\n}\n\nfunc fastcheck", "\tif level >= ErrorLevel {\n\t\tselect {\n\t\tcase logBuffer <- log:\n\t\tdefault:\n\t\t}\n\t}\n\n\t// wake up writer if necessary\n\tif logsWaitingFlag.SetToIf(false, true) {\n\t\tselect {\n\t\tcase logsWaiting <- struct{}{}:\n\t\tdefault:\n\t\t}\n\t}\n}\n\nfunc fastcheck", "C20-R2|no second enqueue")
+mut("C20", "r2-drop-when-full", "log/input.go",
+    "\tdefault:\n\tforceEmptyingLoop:\n\t\t// force empty buffer until we can send to it\n\t\tfor {\n\t\t\tselect {\n\t\t\tcase forceEmptyingOfBuffer <- struct{}{}:\n\t\t\tcase logBuffer <- log:\n\t\t\t\tbreak forceEmptyingLoop\n\t\t\t}\n\t\t}\n\t}\n\n\t// wake up writer if necessary\n\tif logsWaitingFlag.SetToIf(false, true) {\n\t\tselect {", "\tdefault:\n\t\tselect {\n\t\tcase forceEmptyingOfBuffer <- struct{}{}:\n\t\tcase logBuffer <- log:\n\t\t}\n\t}\n\n\t// wake up writer if necessary\n\tif logsWaitingFlag.SetToIf(false, true) {\n\t\tselect {", "C20-R2|log.log / exit")
+mut("C20", "r2-submit-async", "log/trace.go",
+    "\tdefault:\n\tforceEmptyingLoop:\n\t\t// force empty buffer until we can send to it\n\t\tfor {\n\t\t\tselect {\n\t\t\tcase forceEmptyingOfBuffer <- struct{}{}:\n\t\t\tcase logBuffer <- log:\n\t\t\t\tbreak forceEmptyingLoop\n\t\t\t}\n\t\t}\n\t}", "\tdefault:\n\t\tgo func() {\n\t\t\tlogBuffer <- log\n\t\t}()\n\t}", "C20-R2|Submit")
+mut("C20", "r3-equal-tracer-and", "log/logging.go",
+    "\tcase ll.tracer != nil || ol.tracer != nil:", "\tcase ll.tracer != nil && ol.tracer != nil:", "C20-R3|Equal")
+mut("C20", "r3-equal-ignores-level", "log/logging.go",
+    "\tcase ll.level != ol.level:\n\t\treturn false\n", "", "C20-R3|Equal")
+mut("C20", "r3-duplicates-without-equal", "log/output.go",
+    "\t\t\t\tif nextLine.Equal(currentLine) {\n\t\t\t\t\tduplicates++\n\t\t\t\t\tcontinue writeLoop\n\t\t\t\t}", "\t\t\t\tif nextLine.msg == currentLine.msg {\n\t\t\t\t\tduplicates++\n\t\t\t\t\tcontinue writeLoop\n\t\t\t\t}", "C20-R3|duplicates++")
+mut("C20", "r4-shutdown-arm-no-drain", "log/output.go",
+    "\t\tcase <-writeTrigger: // normal process\n\t\tcase <-forceEmptyingOfBuffer: // log buffer is full!\n\t\tcase <-shutdownSignal: // shutting down\n\t\t\tfinalizeWriting()\n\t\t\treturn", "\t\tcase <-writeTrigger: // normal process\n\t\tcase <-forceEmptyingOfBuffer: // log buffer is full!\n\t\tcase <-shutdownSignal: // shutting down\n\t\t\treturn", "C20-R4|drains the buffer")
+mut("C20", "r4-finalize-drops", "log/output.go",
+    "\t\tcase line := <-logBuffer:\n\t\t\tadapter.Write(line, 0)", "\t\tcase line := <-logBuffer:\n\t\t\tif line.level >= InfoLevel {\n\t\t\t\tadapter.Write(line, 0)\n\t\t\t}", "C20-R4|every dequeued line is written")
+mut("C20", "r4-shutdown-no-wait", "log/logging.go",
+    "\tif shutdownFlag.SetToIf(false, true) {\n\t\tclose(shutdownSignal)\n\t}\n\tshutdownWaitGroup.Wait()", "\tif shutdownFlag.SetToIf(false, true) {\n\t\tclose(shutdownSignal)\n\t\tshutdownWaitGroup.Wait()\n\t}", "C20-R4|waits for the writer")
